@@ -4,4 +4,4 @@ p=$1; m=$2; shift 2
 checks="${@:-$p}"
 d=${MUTOUT:-/tmp/mutout}/$p/$m
 [ -f $d/patch.diff ] || { echo "RESULT $p/$m missing patch"; exit 1; }
-/verif/tools/runmutant.sh $d/patch.diff $d/demo.py $checks 2>&1 | grep RESULT | sed "s|^RESULT|RESULT $p/$m|"
+${VERIF_DIR:-/verif}/tools/runmutant.sh $d/patch.diff $d/demo.py $checks 2>&1 | grep RESULT | sed "s|^RESULT|RESULT $p/$m|"
